@@ -237,6 +237,22 @@ def build_harness(res):
     return True
 
 
+CLI_TARGET = os.path.join(TARGET, "cli")
+CLI = os.path.join(CLI_TARGET, "debug", "optrs")
+
+
+def build_cli(res):
+    """The real command-line binary, built from /repo's working tree (no hooks) into a target dir outside /repo."""
+    with Lock("cargo-cli"):
+        rc, out = sh(["cargo", "build", "--quiet", "--offline", "--bin", "optrs", "--manifest-path", os.path.join(REPO, "Cargo.toml"),
+                      "--target-dir", CLI_TARGET], timeout=3000)
+    if rc != 0:
+        errs = "\n".join(l for l in out.splitlines() if l.startswith("error"))[:1500]
+        res.broken.append(("harness", "cargo build of the CLI", errs or out[-1500:]))
+        return False
+    return True
+
+
 def build_model(res):
     rc, out = lake_build(["optrs-model"])
     if rc != 0:
